@@ -147,6 +147,21 @@ fn kind_ok<T>(v: &serde_json::Value) -> Option<bool> {
     })
 }
 
+/// long bodies with multi-byte characters around byte 256 (error paths that quote a prefix of
+/// the body): a well-formed string document and the same document cut short
+fn long_bodies() -> Vec<Vec<u8>> {
+    let mut out = vec![];
+    for lead in 250..=258usize {
+        for ch in ["\u{e9}", "\u{20ac}", "\u{10000}"] {
+            let doc = format!("\"{}{}{}\"", "a".repeat(lead), ch, "b".repeat(12));
+            out.push(doc.as_bytes().to_vec());
+            out.push(doc.as_bytes()[..doc.len() - 1].to_vec());
+            out.push(format!("[{}, 1]", doc).into_bytes());
+        }
+    }
+    out
+}
+
 /// well-formed single documents of a neighbouring JSON kind (must be refused for the class)
 fn near_misses<T>() -> Vec<&'static str> {
     match std::any::type_name::<T>() {
@@ -380,6 +395,10 @@ where
             run_value::<T>(r, class, 200, Ct::Json, &s);
         }
     }
+    for body in long_bodies() {
+        r.states += 1;
+        run_value::<T>(r, class, 200, Ct::Json, &script::default_script(&body));
+    }
 }
 
 fn sweep_default<T>(class: &'static str, valid: &[&str], r: &mut Report, k: usize, thorough: bool)
@@ -392,6 +411,10 @@ where
         for s in [script::default_script(body.as_bytes()), uniform(body.as_bytes(), 1)] {
             run_default::<T>(r, class, 200, Ct::Json, &s);
         }
+    }
+    for body in long_bodies() {
+        r.states += 1;
+        run_default::<T>(r, class, 200, Ct::Json, &script::default_script(&body));
     }
 }
 
